@@ -30,6 +30,16 @@ def main():
     os.replace(rf + '.tmp', rf)
     sys.stdout.flush()
     sys.stderr.flush()
+    if os.environ.get('COVERAGE_PROCESS_START'):
+        # tools/coverage.sh: line coverage of the package under the workloads
+        try:
+            import coverage
+            cov = coverage.Coverage.current()
+            if cov is not None:
+                cov.stop()
+                cov.save()
+        except Exception:
+            pass
     os._exit(0)
 
 
